@@ -190,6 +190,13 @@ func TestC30(t *testing.T) {
 			// salts that differ only by trailing NUL bytes (HMAC pads its key with zeros)
 			salts = append(salts, "\x00", "ALPS\x00\x00")
 		}
+		if i%16 == 8 {
+			// a salt longer than the HMAC block (136 bytes for SHA3-256) next to its own SHA3-256
+			// digest (HMAC replaces an over-long key by its digest)
+			long := string(randBytes(rg, 137+rg.Intn(200)))
+			d := sha3.Sum256([]byte(long))
+			salts = append(salts, long, string(d[:]))
+		}
 		seen := map[tls.PRNGSeed]string{}
 		for _, s := range salts {
 			got, err := tls.VerifSaltedSeed(&seed, s)
@@ -208,6 +215,13 @@ func TestC30(t *testing.T) {
 				class := "other"
 				if strings.TrimRight(prev, "\x00") == strings.TrimRight(s, "\x00") && len(prev) <= 136 && len(s) <= 136 {
 					class = "salts_differ_only_by_trailing_NUL_bytes"
+				} else if a, b := prev, s; len(a) > 136 || len(b) > 136 {
+					if len(a) < len(b) {
+						a, b = b, a
+					}
+					if d := sha3.Sum256([]byte(a)); strings.TrimRight(string(d[:]), "\x00") == strings.TrimRight(b, "\x00") {
+						class = "salt_longer_than_the_hmac_block_and_its_digest"
+					}
 				}
 				r.Violation(map[string]string{"kind": "prng_salted_collision", "class": class}, fmt.Sprintf("salts %q and %q give the same seed", prev, s), map[string]any{"seed": fmt.Sprintf("%x", seed[:]), "case": i})
 			}
